@@ -50,6 +50,11 @@ def unit_rac(eng):
         ("x = e\ny = s + 2\n.link 2000 - x + y\nnop\ns: nop\nnop\ne: nop\n", 0o1776),
     ]
     bad_progs = [".link 1000\nnop\n.link 1000\n", ".link 1000+e-.\nnop\n.link 1000+e-.\ne: nop\n", "x = e\n.link 1000 + x + s\nnop\ns: nop\ne: nop\n", "x = e\n.link x\nnop\ne: nop\n", ".link a\na: nop\n", ".link 100\n.link 200\nnop\n", ".link s + 2\ns: nop\n", ".link 1000\n.blkb 10\n. = 1004\nnop\n"]
+    # a '. =' skip between the labels of a cancelling link expression (finding D39: reported as recursive-definition)
+    D39_PROGS = [(".link 1000+b-a\na: nop\n. = .+10\nb: nop\n", 0o1012)]
+    d39_active = "D39" in common.ACTIVE_FINDINGS
+    if not d39_active:
+        progs += D39_PROGS
     jobs = [{"kind": "asm", "sources": [p]} for p, _ in progs] + [{"kind": "asm", "sources": [p]} for p in bad_progs]
     res = driver.native(jobs, driver.tree_root())
     bad = []
@@ -65,7 +70,7 @@ def unit_rac(eng):
     for k, r in enumerate(res2):
         if r["status"] != "ok" or bytes.fromhex(r["code_hex"]) != b"\x01" + b"\0" * k + b"\x02":
             bad.append(("skip", k, r["status"]))
-    ob = dict(label="link-expressions-defaults-conflicts-and-forward-skips-0..64-on-the-real-assembler", kind="rac", status="proved" if not bad else "failed", secs=0.0, path=[],
+    ob = dict(label="link-expressions-defaults-conflicts-and-forward-skips-0..64-on-the-real-assembler", kind="rac", status=("known-region" if d39_active else "proved") if not bad else "failed", secs=0.0, path=[],
               witness=None, detail=str(bad[:4]), events=[], smt2=None, backend="cpython-native", unit="link-rac", func="Compiler (run-time check)",
               cases=len(jobs) + len(jobs2), cfg=dict(kind="rac"))
     return dict(unit="link-rac", func="Compiler (run-time check)", paths=len(jobs) + len(jobs2), obligations=[ob], wall=0.0)
@@ -93,6 +98,14 @@ def units(tier):
         if name.startswith("promise") or name.startswith("poly-wait") or "x-x" in name or "x-y" in name or name.startswith("poly[sub") or name.startswith("awaiting"):
             us.append((name, fn, kw))
     return us
+
+
+def witness_D39(tree):
+    r = driver.native([{"kind": "asm", "sources": [".link 1000+b-a\na: nop\n. = .+10\nb: nop\n"]}], tree)[0]
+    return not (r["status"] == "ok" and r.get("base") == 0o1012), "'.link 1000+b-a / a: nop / . = .+10 / b: nop' -> %s %s" % (r["status"], [d[1] for d in r.get("diags", [])][:2])
+
+
+FINDING_WITNESS = {"D39": witness_D39}
 
 
 def canary(eng):
